@@ -143,7 +143,7 @@ func (ob *Obligation) Script(timeoutMs int, wantModel bool) string {
 	if wantModel {
 		sb.WriteString("(set-option :produce-models true)\n")
 	}
-	sb.WriteString("(set-logic ALL)\n")
+	sb.WriteString("(set-logic ALL)\n(declare-fun STR () (Array Int (Array Int Int)))\n(declare-fun ZERO () (Array Int Int))\n(assert (forall ((j Int)) (! (= (select ZERO j) 0) :pattern ((select ZERO j)))))\n")
 	for _, l := range vc.Prelude {
 		sb.WriteString(l)
 		sb.WriteByte('\n')
